@@ -508,7 +508,9 @@ def backtrack (st : Store) : Nat → AnyOp → Rel → Engine → Except Err (Re
               let res ← second.finishApply target
               return (.new (res.get target), done && cdone)
           | .new u =>
-            let res ← second.finishApply u
+            -- the commuted replacement may rely on a column only `first` would have provided
+            let repl := if !done && !(second.columnsRequired.subset u.columns) then cur else second
+            let res ← repl.finishApply u
             return (.new (res.get u), done && cdone)
       | .binary .. => .ok (.same, false)
       | .transfer oid dest target =>
